@@ -108,7 +108,8 @@ void wdump() {
     foreach (x in all_inventory(q)) r += wtag(x) + "+";
     r += "," + living(q) + "," + query_heart_beat(q) + "," + (interactive(q) ? 1 : 0);
   }
-  if (names) foreach (t in sort_array(keys(names), 1)) { x = find_object(names[t]); r += " F:" + t + "=" + names[t] + "=" + wtag(x); }
+  // the name an object carries now (a virtual object is renamed by the driver), or the last known name of a dead one
+  if (names) foreach (t in sort_array(keys(names), 1)) { string nm; nm = (reg && reg[t]) ? file_name(reg[t]) : names[t]; x = find_object(nm); r += " F:" + t + "=" + nm + "=" + wtag(x); }
   r += " O:"; foreach (x in objects()) r += wtag(x) + "+";
   r += " L:"; foreach (x in livings()) r += wtag(x) + "+";
   r += " U:"; foreach (x in users()) r += wtag(x) + "+";
@@ -160,6 +161,9 @@ void wop(string *a) {
       if (o && d) { e = catch(o->do_move(d)); rec("WMOVE " + a[1] + " " + a[2] + " err=" + (e ? 1 : 0)); }
       else rec("WMOVE " + a[1] + " " + a[2] + " skip");
     }
+    break;
+  case "wvo":     // wvo <name> <how>: what master::compile_object answers for the virtual name
+    master()->set_vo(a[1], a[2]);
     break;
   case "wmoves":  // wmoves <what> <file>: move_object with a file name as destination (loads it when needed)
     {
@@ -679,7 +683,7 @@ void do_op(string op) {
       if (objectp(r) && r != this_object()) destruct(r);
     }
     break;
-  case "wclone": case "wload": case "whold": case "wdump": case "walk": case "lname": case "wmove": case "wmoves": case "wdest":
+  case "wclone": case "wload": case "whold": case "wdump": case "walk": case "lname": case "wmove": case "wmoves": case "wdest": case "wvo":
     wop(a);
     break;
   case "mk": case "put": case "cyc": case "uncyc": case "share": case "cov": case "covf": case "itv": case "drop": case "clearall": case "rb": case "many": case "use": case "memstat": case "rcall": case "dslot": case "dkids": case "pinfo": case "pdump":
